@@ -197,18 +197,18 @@ def conv_unit(ctx, bits, signed, maxes, loopmaxes):
 
 
 def conv_harness(bits, signed, calls, NL=None, prefix=None):
-    """calls: [(wrapper name, macro text, [reach lines], need_nonempty)]"""
+    """calls: [(wrapper name, macro text with %(wit)s, [input witnesses (before the call)], [outcome witnesses (after it)], need_nonempty)]"""
     D = ['/* generated harness (C15): conversion kernels, %s%d */' % ('s' if signed else 'u', bits)]
     if NL is not None:
         D += ['#define NL %d' % NL, '#define CV_MINN %d' % (len(prefix) if prefix else 0)]
     if prefix:
         D.append('#define C15_PREFIX "%s"' % prefix)
     D += ['#define C15_BITS %d' % bits, '#define C15_TSIGNED %d' % (1 if signed else 0), '#include "verif.h"']
-    D += ['#ifndef VF_SPLIT'] + ['#define V_%s 1' % w for w, _, _, _ in calls] + ['#endif']
+    D += ['#ifndef VF_SPLIT'] + ['#define V_%s 1' % c[0] for c in calls] + ['#endif']
     D += ['#include "c15_conv.h"', 'static void c15_calls(void) {']
-    for w, macro, reach, nonempty in calls:
+    for w, macro, wit, reach, nonempty in calls:
         D.append('#if V_%s' % w)
-        D.append('  %s{ %s;' % ('if (cv_n >= 1) ' if nonempty else '', macro))
+        D.append('  %s{ %s;' % ('if (cv_n >= 1) ' if nonempty else '', macro % {'wit': ' '.join('REACH(%s, "%s");' % (e, m) for e, m in wit)}))
         D += ['    REACH(%s, "%s");' % (e, m) for e, m in reach]
         D.append('  }')
         D.append('#endif')
@@ -216,15 +216,16 @@ def conv_harness(bits, signed, calls, NL=None, prefix=None):
     return '\n'.join(D) + '\n'
 
 
-def fold_reach(maxv, NL, prefix, r0_symbolic):
-    """witnesses of a fold kernel: which outcomes exist within the bound"""
-    lo = int((prefix or '') + '0' * (NL - len(prefix or ''))) if prefix else 0          # smallest value of a longest string
-    hi = int((prefix or '') + '9' * (NL - len(prefix or '')))                            # largest value of any string
-    R = [('cv_ok', 'value fits')]
+def fold_wit(maxv, NL, prefix, r0_symbolic):
+    """input witnesses of a fold kernel: which specification outcomes exist within the bound"""
+    pl = len(prefix or '')
+    lo = int((prefix or '') + '0' * (NL - pl)) if prefix else 0          # smallest value of a longest string
+    hi = int((prefix or '') + '9' * (NL - pl))                            # largest value of any string
+    R = [('cv_ok && cv_n >= 1', 'value fits')]
     if lo <= maxv:
         R.append(('cv_ok && cv_n == NL', 'longest string fits'))
     if hi > maxv or r0_symbolic:
-        R.append(('!cv_ok', 'overflow reported'))
+        R.append(('!cv_ok', 'value beyond the maximum'))
     return R
 
 
@@ -233,62 +234,64 @@ def conv_queries(ctx, qs, bits, signed, quick):
     maxes = kernel_max(bits, signed, quick)
     tmax = maxes[0]
     W = digits_of(tmax)
-    loopmaxes = maxes if not quick else [m for m in maxes if m in (tmax, (umax(bits) >> 1) + 1, 10, 100, 10 ** 9, 10 ** 19, 10 ** 18, 1000)]
+    smax_mag = (umax(bits) >> 1) + 1
+    keep = (tmax, smax_mag, 10, 100, 1000, 10 ** 9, 10 ** 18, 10 ** 19)
+    loopmaxes = maxes if not quick else [m for m in maxes if m in keep]
     unit = conv_unit(ctx, bits, signed, maxes, loopmaxes)
-    lit64 = lambda v: lit(v)
+    after = [('o[0] == 1', 'kernel returned true'), ('o[0] == 0', 'kernel returned false')]
     # (i) step lemma: one query for all Maximum values of the type
-    calls = [('step_%s_%d' % (tn, m), 'C15_STEP(w_step_%s_%d, %s)' % (tn, m, lit64(m)),
-              [('cv_ok', 'step fits')] + ([('!cv_ok', 'step overflows')]), False) for m in maxes]
+    calls = [('step_%s_%d' % (tn, m), 'C15_STEP(w_step_%s_%d, %s)' % (tn, m, lit(m)), [], [('cv_ok', 'step fits'), ('!cv_ok', 'step overflows')], False) for m in maxes]
     h = ctx.write('k_step_%s.c' % tn, conv_harness(bits, signed, calls))
     qs.append(vf.Query('step/%s' % tn, unit, h, unwind=3, mem_gb=1, solver='cadical',
-                       bounds={'type': tn, 'maximum': maxes, 'accumulator': 'every value', 'digit': '0..9'},
+                       bounds={'type': tn, 'maximum': maxes, 'accumulator': 'every value' if not signed else 'every non-negative value', 'digit': '0..9'},
                        note='accumulate_digit<%s, Max>: one step from every state vs exact arithmetic' % tn))
-    # (ii) loops on symbolic digit strings
-    NL = W + 1 if bits <= 16 else (11 if bits == 32 else 6)
-    if quick and bits == 32:
-        NL = 11
-    smax_mag = (umax(bits) >> 1) + 1
 
-    def loop_calls(NLx, prefix):
+    # (ii) loops on symbolic digit strings
+    def loop_calls(NLx, prefix, ms, with_digits):
         C = []
-        for m in loopmaxes:
-            C.append(('digits_%s_%d' % (tn, m), 'C15_DIGITS(w_digits_%s_%d, %s)' % (tn, m, lit64(m)), fold_reach(m, NLx, prefix, True), False))
+        for m in ms:
+            if with_digits:
+                C.append(('digits_%s_%d' % (tn, m), 'C15_DIGITS(w_digits_%s_%d, %s, %%(wit)s)' % (tn, m, lit(m)), fold_wit(m, NLx, prefix, True), [], False))
             k = 'cpos' if signed else 'cuns'
-            C.append(('%s_%s_%d' % (k, tn, m), 'C15_%s(w_%s_%s_%d, %s)' % (k.upper(), k, tn, m, lit64(m)), fold_reach(m, NLx, prefix, False), True))
-        if signed:
-            R = fold_reach(smax_mag, NLx, prefix, False)
-            dm = str(smax_mag)
-            if len(dm) <= NLx and (not prefix or dm.startswith(prefix)):
-                R.append(('cv_ok && cv_v == (cv_val)CV_SMAX + 1', 'most negative value stored'))
-            C.append(('cneg_%s' % tn, 'C15_CNEG(w_cneg_%s)' % tn, R, True))
-            R = fold_reach(smax_mag, NLx, prefix, False) + [('cv_ok && cv_sign == 1', 'explicit plus sign'), ('cv_ok && cv_sign == 0', 'no sign')]
-            if len(dm) <= NLx and (not prefix or dm.startswith(prefix)):
-                R.append(('cv_ok && cv_neg && cv_v == (cv_val)CV_SMAX + 1', 'most negative value stored'))
-            dp = str(smax_mag - 1)
-            if len(dp) <= NLx and (not prefix or dp.startswith(prefix)):
-                R.append(('cv_ok && !cv_neg && cv_v == (cv_val)CV_SMAX', 'most positive value stored'))
-            C.append(('csig_%s' % tn, 'C15_CSIG(w_csig_%s)' % tn, R, True))
+            C.append(('%s_%s_%d' % (k, tn, m), 'C15_%s(w_%s_%s_%d, %s, %%(wit)s)' % (k.upper(), k, tn, m, lit(m)), fold_wit(m, NLx, prefix, False), [], True))
+        if signed and tmax in ms:
+            dm, dp = str(smax_mag), str(smax_mag - 1)
+            has_min = len(dm) <= NLx and (not prefix or dm.startswith(prefix))
+            has_max = len(dp) <= NLx and (not prefix or dp.startswith(prefix))
+            R = fold_wit(smax_mag, NLx, prefix, False)
+            if has_min:
+                R.append(('cv_ok && cv_v == (cv_val)CV_SMAX + 1', 'input is the most negative value'))
+            C.append(('cneg_%s' % tn, 'C15_CNEG(w_cneg_%s, %%(wit)s)' % tn, R, [], True))
+            R = fold_wit(smax_mag - 1, NLx, prefix, False) + [('cv_ok && cv_sign == 1', 'explicit plus sign'), ('cv_ok && cv_sign == 0', 'no sign'), ('cv_ok && cv_sign == 2 && cv_v > 0', 'negative value')]
+            if has_min:
+                R.append(('cv_ok && cv_neg && cv_v == (cv_val)CV_SMAX + 1', 'input is the most negative value'))
+            if has_max:
+                R.append(('cv_ok && !cv_neg && cv_v == (cv_val)CV_SMAX', 'input is the most positive value'))
+            C.append(('csig_%s' % tn, 'C15_CSIG(w_csig_%s, %%(wit)s)' % tn, R, [], True))
         return C
 
-    def emit(NLx, prefix, tag, solver):
-        calls = loop_calls(NLx, prefix)
+    def emit(NLx, prefix, tag, ms, with_digits, solver=None):
+        calls = loop_calls(NLx, prefix, ms, with_digits)
         h = ctx.write('k_loop_%s%s.c' % (tn, tag), conv_harness(bits, signed, calls, NLx, prefix))
-        for w, _, _, _ in calls:
-            qs.append(vf.Query('conv/%s%s' % (w, tag), unit, h, unwind=NLx + 2, cbmc_defines={'VF_SPLIT': 1, 'V_' + w: 1}, mem_gb=2, solver=solver,
+        for c in calls:
+            w = c[0]
+            qs.append(vf.Query('conv/%s%s' % (w, tag), unit, h, unwind=NLx + 2, cbmc_defines={'VF_SPLIT': 1, 'V_' + w: 1}, mem_gb=2,
+                               solver=solver or 'cadical',
                                bounds={'kernel': w, 'digits': NLx, 'prefix': prefix, 'start_accumulator': 'every value' if w.startswith('digits') else 0},
                                note='%s on symbolic digit strings vs exact arithmetic' % w))
 
-    emit(NL, None, '', 'cadical')
+    if bits <= 16:
+        NL = W + 1                      # exhaustive: every digit string up to one digit beyond the width
+    elif bits == 32:
+        NL = 6 if quick else 11
+    else:
+        NL = 6 if quick else 8
+    emit(NL, None, '', loopmaxes, True)
     if bits >= 32:
-        # boundary neighbourhoods: concrete high digits, 8 symbolic low digits, one digit beyond the width
-        vals = [tmax, smax_mag] if not signed else [tmax]
-        seen = []
-        for v in vals:
+        # boundary neighbourhoods: concrete high digits, 8 symbolic low digits, up to one digit beyond the width
+        for v in ([tmax, smax_mag] if not signed else [tmax]):
             d = str(v)
-            p = d[:-8]
-            if p and p not in seen:
-                seen.append(p)
-                emit(len(d) + 1, p, '@' + p, 'cadical')
+            emit(len(d) + 1, d[:-8], '@' + d[:-8], [v], False)
 
 
 def plan(ctx):
